@@ -58,7 +58,7 @@ def routes(ref, Sid, t, d, s, natural):
             base = "/".join(v for _, v in items[:half])
             kw = dict(reversed(items[half:]))
             yield "get_with(kw)", lambda: Sid(base).get_with(**kw)
-        if not ref.is_search_text(s):
+        if not ref.is_search_text(s) and all(d.values()):     # (an empty value has no path round trip: C05's alphabet)
             def via_path():
                 p = Sid(s).path()
                 return Sid(path=p) if p else None
@@ -181,6 +181,15 @@ def gen(ref, tier):
             for t2 in ref.all_types(s):
                 if t2 != nat:
                     yield [s, t2]
+    # empty values are legal in free-text positions ('hamlet/a/char/' is an asset named ''): '/' must still give back the Sid
+    conc = universe.one_per_type(ref)
+    for typ, s in conc.items():
+        segs = s.split("/")
+        for i, (k, pat) in enumerate(ref.templates[typ]):
+            if pat is None:
+                e = "/".join(segs[:i] + [""] + segs[i + 1:])
+                if ref.natural(e)[0]:
+                    yield [e, None]
     for s in UNTYPED:
         yield [s, None]
     for s in universe.one_per_type(ref).values():
